@@ -211,19 +211,22 @@ def walkY (t : Transform) (x y off : Int) (k : Nat) : Option Int :=
 
 /-! ### pad_repeat_get_scanline_bounds (pixman-inlines.h) -/
 
+/-- first half of `pad_repeat_get_scanline_bounds`: `(left_pad, width)` after the `if (vx < 0)` block.
+    `/` on `int64_t` truncates towards zero (`Int.tdiv`); the `(int32_t) tmp` casts are explicit. -/
+def padLeft (vx unitX width : Int) : Int × Int :=
+  if vx < 0 then
+    let tmp := Int.tdiv (unitX - 1 - vx) unitX
+    if tmp > width then (width, 0) else (wrapS32 tmp, wrapS32 (width - wrapS32 tmp))
+  else (0, width)
+
 /-- `pad_repeat_get_scanline_bounds (source_image_width, vx, unit_x, &width, &left_pad, &right_pad)`:
-    returns `(width', left_pad, right_pad)`.  `/` on `int64_t` truncates towards zero (`Int.tdiv`);
-    the `(int32_t) tmp` casts are explicit. -/
+    returns `(width', left_pad, right_pad)`. -/
 def padRepeatGetScanlineBounds (srcWidth vx unitX width : Int) : Int × Int × Int :=
   let maxVx := srcWidth * 65536
-  let (leftPad, width) :=
-    if vx < 0 then
-      let tmp := Int.tdiv (unitX - 1 - vx) unitX
-      if tmp > width then (width, 0) else (wrapS32 tmp, wrapS32 (width - wrapS32 tmp))
-    else (0, width)
-  let tmp := Int.tdiv (unitX - 1 - vx + maxVx) unitX - leftPad
-  if tmp < 0 then (0, leftPad, width)
-  else if tmp ≥ width then (width, leftPad, 0)
-  else (wrapS32 tmp, leftPad, wrapS32 (width - wrapS32 tmp))
+  let lw := padLeft vx unitX width
+  let tmp := Int.tdiv (unitX - 1 - vx + maxVx) unitX - lw.1
+  if tmp < 0 then (0, lw.1, lw.2)
+  else if tmp ≥ lw.2 then (lw.2, lw.1, 0)
+  else (wrapS32 tmp, lw.1, wrapS32 (lw.2 - wrapS32 tmp))
 
 end Pixman.Model.Extent
